@@ -22,6 +22,15 @@ package server
 // quicvarint.Read of the frame type, protocol.ReadTCPRequest(stream), and the two-way copy on the
 // same stream.  Every byte the stream hands out before the copy starts is recorded ("Q" events), so
 // client payload consumed by the request phase shows up as a source offset the relay never read.
+//
+// Cases with an "e2e" object (they also carry "req") run the whole server side of one connection on the fakes:
+// the request in front of the client stream is the buffer the REAL protocol.WriteTCPRequest produces (random
+// padding), it is parsed as above, the dial is faked (ok, or an error with a message), the response is written to
+// the fake stream by the REAL protocol.WriteTCPResponse (server.go:308-323 transcribed: failure response + Close,
+// or "Connected"), then the relay and the teardown run as for every other case.  The request and response
+// frames are reported in hex; what the stream was handed after the response is the Down sink.  The client half
+// (real client.TCP / tcpConn.Read on a real QUIC stream that is served these very bytes) runs in package client
+// (c06_client_test.go); the driver joins the two and evaluates the composed model of coq/model/C06_E2E.v.
 
 import (
 	"bytes"
@@ -73,9 +82,15 @@ type c06Req struct {
 	Glue bool   `json:"glue"` // the first payload segment arrives together with the last request segment (one Read can return both)
 }
 
+// c06E2E: the dial of an end-to-end case ("" = connected; otherwise the message of the dial error)
+type c06E2E struct {
+	DialErr string `json:"dial_err"`
+}
+
 type c06Case struct {
 	K        string  `json:"k"`
 	Req      *c06Req `json:"req"`
+	E2E      *c06E2E `json:"e2e"`
 	Mode     string  `json:"mode"` // "logged" | "fast"
 	Up       c06Side `json:"up"`
 	Down     c06Side `json:"down"`
@@ -184,6 +199,8 @@ type c06End struct {
 	hsegs  []int   // their arrival segments
 	glue   bool
 	writes []c06Write
+	inResp bool   // the response frame is being written (before the relay): kept apart from the Down sink
+	resp   []byte // the response frame
 	sink   bytes.Buffer
 	closed chan struct{}
 	once   sync.Once
@@ -311,6 +328,12 @@ func (e *c06End) Read(p []byte) (int, error) {
 
 func (e *c06End) Write(p []byte) (int, error) {
 	e.run.mu.Lock()
+	if e.inResp {
+		e.resp = append(e.resp, p...)
+		e.run.rec("P", len(p))
+		e.run.mu.Unlock()
+		return len(p), nil
+	}
 	w := c06Write{Short: -1}
 	if len(e.writes) > 0 {
 		w = e.writes[0]
@@ -394,6 +417,8 @@ type c06Rel struct {
 	reqAddr        string
 	reqErr         string
 	reqFT          uint64
+	reqHdr         []byte
+	dialed         bool
 }
 
 // c06NewRel builds the fakes of one relay.  Must be called inside the synctest bubble: channels made outside
@@ -421,6 +446,15 @@ func (r *c06Rel) serve() {
 		hdr = append(hdr, c.Req.Addr...)
 		hdr = quicvarint.Append(hdr, uint64(c.Req.Pad))
 		hdr = append(hdr, bytes.Repeat([]byte{'p'}, c.Req.Pad)...)
+		if c.E2E != nil {
+			// the client's own writer (client.go:199): frame type, address, padding drawn by the code
+			var wb bytes.Buffer
+			if werr := protocol.WriteTCPRequest(&wb, c.Req.Addr); werr != nil {
+				panic("WriteTCPRequest: " + werr.Error())
+			}
+			hdr = append([]byte(nil), wb.Bytes()...)
+		}
+		r.reqHdr = append([]byte(nil), hdr...)
 		stream.hdr, stream.glue = hdr, c.Req.Glue
 		left := len(hdr)
 		for _, n := range c.Req.Segs {
@@ -448,6 +482,23 @@ func (r *c06Rel) serve() {
 			stream.Close() // server.go:278
 			return
 		}
+	}
+	if c.E2E != nil {
+		// server.go:306-323 for a connection no hook intercepts, the dial faked
+		if c.E2E.DialErr != "" {
+			stream.inResp = true
+			_ = protocol.WriteTCPResponse(stream, false, c.E2E.DialErr)
+			stream.inResp = false
+			run.mu.Lock()
+			stream.Close()
+			run.rec("CS")
+			run.mu.Unlock()
+			return
+		}
+		r.dialed = true
+		stream.inResp = true
+		_ = protocol.WriteTCPResponse(stream, true, "Connected")
+		stream.inResp = false
 	}
 	var err error
 	if c.Mode == "fast" {
@@ -500,6 +551,27 @@ func (r *c06Rel) result(res map[string]any) {
 		}
 		res["req_early"] = early // payload bytes the stream handed out before the copy started
 		facts["req_early"] = early
+		if c.E2E != nil {
+			res["req_hex"] = vHex(r.reqHdr)
+			res["resp_hex"] = vHex(stream.resp)
+			res["dialed"] = r.dialed
+			// the Down sink as a stretch of the target's stream: what the client half is served behind the response
+			sinkOK := true
+			sb := stream.sink.Bytes()
+			for i := range sb {
+				if sb[i] != byte((target.a*uint64(i)+target.b)%256) {
+					sinkOK = false
+					break
+				}
+			}
+			res["sink_down_is_prefix"] = sinkOK
+			if ok && r.reqErr == "nil" && len(stream.resp) == 0 {
+				ok, why = false, "the request was accepted but no response frame was written to the stream"
+			}
+			if ok && c.E2E.DialErr != "" && (stream.sink.Len() != 0 || target.sink.Len() != 0) {
+				ok, why = false, fmt.Sprintf("failed dial: %d bytes reached the client stream and %d the target", stream.sink.Len(), target.sink.Len())
+			}
+		}
 		if ok {
 			switch {
 			case r.reqErr != "nil":
